@@ -35,7 +35,9 @@ import (
 	"errors"
 	"fmt"
 	"os"
+	"runtime"
 	"runtime/debug"
+	"strings"
 	"sync"
 
 	mwdb "massnet.org/mass-wallet/masswallet/db"
@@ -88,6 +90,7 @@ type Ctl struct {
 	failCount int
 	Injected  int    // faults injected since Arm
 	FirstKind Kind   // kind of the first injected fault
+	FirstSite string // function of the wallet that made the first failing call
 	Trace     []Kind // kinds of the numbered calls since Arm (when tracing)
 	tracing   bool
 
@@ -129,6 +132,31 @@ func (c *Ctl) NCommits() int { c.mu.Lock(); defer c.mu.Unlock(); return c.Commit
 // Crashed reports whether the crash point has been reached.
 func (c *Ctl) Crashed() bool { c.mu.Lock(); defer c.mu.Unlock(); return c.crashed }
 
+// callSite names the innermost function outside this package and outside masswallet/db (View,
+// Update and the bucket helpers) on the stack: the wallet function that made the database call.
+func callSite() string {
+	pcs := make([]uintptr, 24)
+	n := runtime.Callers(3, pcs)
+	frames := runtime.CallersFrames(pcs[:n])
+	for {
+		f, more := frames.Next()
+		fn := f.Function
+		if fn != "" && !strings.Contains(fn, "internal/dbwrap.") && !strings.Contains(fn, "masswallet/db.") {
+			if i := strings.LastIndex(fn, "/"); i >= 0 {
+				fn = fn[i+1:]
+			}
+			// closures: masswallet.(*WalletManager).NewAddress.func1 -> NewAddress
+			for strings.Contains(fn, ".func") {
+				fn = fn[:strings.LastIndex(fn, ".func")]
+			}
+			return fn
+		}
+		if !more {
+			return "?"
+		}
+	}
+}
+
 // VERIF_FAULT_STACK=1 prints the call stack of every injected fault (debugging aid).
 var debugStacks = os.Getenv("VERIF_FAULT_STACK") != ""
 
@@ -164,6 +192,7 @@ func (c *Ctl) call(k Kind) bool {
 	if fail {
 		if c.Injected == 0 {
 			c.FirstKind = k
+			c.FirstSite = callSite()
 		}
 		c.Injected++
 		if debugStacks {
